@@ -251,12 +251,12 @@ PROPS.update({
 })
 PROPS["C12"] = {
     "level": "other",
-    "lean_modules": ["ApdVerif.Props.C12", "ApdVerif.Props.C12Interval", "ApdVerif.Props.GenTieConsts", "ApdVerif.Props.TransLog"],
+    "lean_modules": ["ApdVerif.Props.C12", "ApdVerif.Props.C12Interval", "ApdVerif.Props.GenTieConsts", "ApdVerif.Props.TransLog", "ApdVerif.Props.C12ExpAcc"],
     "theorem_prefixes": ["C12_", "C12I_", "GenTie_ln10", "GenTie_constVals", "C12T_"],
     "streams": [{"stream": "translog", "n": {"quick": 25000, "thorough": 500000}}],
     "projections": ["value", "repr", "flags", "err", "tape", "consts"],
     "oracle_tags": ["C12"],
-    "explanation": "partial: proved in Lean for all inputs - the exact cases (exp(0), ln(1), log10(1), x**0, x**1, integer powers whose exact value fits) on the modelled part of the code (special-value prologues and the float-free integer-power path of Pow, which is correspondence-checked), and the soundness of the outward-rounded interval arithmetic behind the oracles (see Props/C12Interval.lean for how far). NOT proved: the one-ulp accuracy of the Taylor/Halley/atanh series, which are steered by float64 estimates. Every generated case (operands with more digits than Precision, ln near 1, exp near the over/underflow thresholds, integer, half-integer and fractional powers, Precision 1..34) is judged by rational enclosures of exp and ln: a failure is reported only when the result is certainly more than one ulp from every point of the enclosure; claimed overflow/underflow is checked against the enclosure",
+    "explanation": "partial: proved in Lean for all inputs - Exp in full: every delivered finite result of Context.Exp is within 1.2 ulp of exp(x), within 0.93 ulp for x > 0, whatever the rounding mode, for every operand and every decision tape that satisfies the decidable adequacy condition ExpTapeOK (C12_exp_accurate, C12_exp_accurate_pos, C12_exp_accurate_delivered, C12_exp_accurate_tiny; stages C12_exp_series_trunc, C12_exp_horner_rounded, C12_exp_power_rounded); the driver evaluates ExpTapeOK on the float64 decisions of every real Exp call, a call outside it breaks the correspondence. Also the exact cases (exp(0), ln(1), log10(1), x**0, x**1, integer powers whose exact value fits) on the modelled part of the code (special-value prologues and the float-free integer-power path of Pow, which is correspondence-checked), and the soundness of the outward-rounded interval arithmetic behind the oracles (see Props/C12Interval.lean for how far). NOT proved: a bound below one ulp for negative arguments of Exp (a worst-case analysis at the code's working precision cannot give one: first-order worst case about 1.05 ulp; observed maximum 0.544 ulp), and the accuracy of Ln, Log10 and fractional Pow (Halley/atanh series steered by a float64 estimate). Every generated case (operands with more digits than Precision, ln near 1, exp near the over/underflow thresholds, integer, half-integer and fractional powers, Precision 1..34) is judged by rational enclosures of exp and ln: a failure is reported only when the result is certainly more than one ulp from every point of the enclosure; claimed overflow/underflow is checked against the enclosure",
     "trusted_extra": [COMPOSITE_NOTE, "strLn10/strInvLn10 digit strings: their leading digits are compared with the interval enclosure of ln 10 through every Ln/Log10 case that is rescaled by ln 10"],
 }
 
